@@ -1225,9 +1225,10 @@ impl<'a> Lexer<'a> {
                                 || self.next_chars_exact(["_"; 2])
                                 || self.peek_char().is_some_and(is_formatted_subscript);
                             if !has_2nd_subscript {
-                                self.end(Subscr((n + num + m).into()), start);
+                                let sub_num = n.saturating_add(num).saturating_add(m);
+                                self.end(Subscr(sub_num.into()), start);
                             } else {
-                                let sub_num = n + num + (m - 1).max(0);
+                                let sub_num = n.saturating_add(num).saturating_add((m - 1).max(0));
                                 self.loc = before_last_2nd_chain;
                                 self.end(Subscr(sub_num.into()), start);
                             }
